@@ -249,6 +249,10 @@ _dispatch_io_create(dispatch_io_type_t type)
 			dispatch_io_defaults.chunk_size;
 	channel->queue = dispatch_queue_create("com.apple.libdispatch-io.channelq",
 			NULL);
+	// no descriptor until the creation path assigns one (a channel whose
+	// creation fails never gets one: 0 would name a real descriptor)
+	channel->fd = -1;
+	channel->fd_actual = -1;
 	return channel;
 }
 
